@@ -99,7 +99,7 @@ def _analyse(repo, e):
             e.dict_is_data = v.const if isinstance(v.ast, ast.Constant) else None
         elif k == 'parse_scalars':
             e.parse_scalars = v.const if isinstance(v.ast, ast.Constant) else None
-    if len(mk.args) > 2:
+    if len(mk.node.args) > 2:
         raise AnalysisError('constructor of %s passes more than (loader, node) positionally to _make_node' % e.tag)
 
 
